@@ -80,12 +80,25 @@ def build(rng, facts, name):
     j2 = b.emit("kobs m"); b.emit("kobs c", ("same", j2))
     return b
 
+def build_wide(rng, name):
+    """Very fine accuracy: two non-empty bins more than 2^31 indexes apart (index deltas beyond int32), hash-map source, targets that can hold them."""
+    a = rng.choice([1e-7, 2e-7, 1.5e-7]); spec = "log:a:%s" % f2h(a); b = Builder(name)
+    b.knew("src", spec, "sparse", "sparse")
+    for v in rng.sample([1e-100, 1e100, 3e-120, 7e99, 2.5e-90], 3) + [-1e100, -1e-100]: b.kadd("src", v, rng.choice([None, 2.0]))
+    j0 = b.emit("kobs src")
+    b.emit("kenc e src 0", "ok"); b.emit("kobs src", ("same", j0))
+    for kind in ("sparse", rng.choice(["low:8", "high:8"])):
+        b.emit("kdec t e %s nil" % kind, "ok"); b.emit("kobs t", expect_decoded(j0, kind))
+    b.knew("r", spec, "sparse", "sparse"); b.kadd("r", 1.0); b.knew("r2", spec, "sparse", "sparse"); b.kadd("r2", 1.0)
+    b.emit("kdecinto r e", "ok"); b.kmerge("r2", "src"); j1 = b.emit("kobs r2"); b.emit("kobs r", ("same", j1))
+    return b
+
 def run(tier, seed):
     rng = random.Random(seed)
     ok, log = core.build_vrun()
     specs = spec_list(rng, 12 if tier == "quick" else 50)
     facts = sketchcheck.learn_specs("C06", specs) if ok else {}
-    builders = [build(rng, facts, "e%d" % i) for i in range(250 if tier == "quick" else 6000)] if facts else []
+    builders = ([build(rng, facts, "e%d" % i) for i in range(250 if tier == "quick" else 6000)] + [build_wide(rng, "w%d" % i) for i in range(6 if tier == "quick" else 60)]) if facts else []
     return sketchcheck.run_sketch_property(
         "C06", tier, seed, builders,
         "sketches from short histories (unit/dyadic/large integer weights surviving the +1/-1 transform, both variants, source stores of every kind incl. collapsing) are encoded with the mapping "
